@@ -22,7 +22,19 @@ KINDS = ["veto", "owner", "group", "symlink", "malformed", "unreadable", "vanish
 FILLS = [0xA5, 0x00, 0xFF, 0x5B, 0x0A, 0x7E]
 
 
+BORROW = ("c07", "c10", "c12", "c13", "c06")
+
+
 def gen_world(rng, i, tier):
+    if rng.chance(0.2):
+        # the complete workload of another check (write/read-back, query histories incl. merges, all six
+        # entry points on one tree, malformed lines at every position, vetoes) under this property's oracle only
+        import importlib
+        name = rng.pick(BORROW)
+        mod = importlib.import_module("lesim.props." + name)
+        w = {"scenario": "borrowed", "from": name, "inner": mod.gen_world(rng, i, tier), "fills": rng.sample(FILLS, 2)}
+        w["cfg"] = w["inner"].get("cfg", {})
+        return w
     if rng.chance(0.25):
         w = c11.gen_world(rng, i, tier)
         w["scenario"] = "history"
@@ -142,6 +154,13 @@ def history_plan(world, fill):
 
 def build_plans(world):
     plans = []
+    if world["scenario"] == "borrowed":
+        import importlib
+        mod = importlib.import_module("lesim.props." + world["from"])
+        for p in mod.build_plans(world["inner"])[:12]:
+            p["cfg"] = dict(p.get("cfg", {}), fill=world["fills"][0])
+            plans.append(p)
+        return plans
     if world["scenario"] == "history":
         for f in world["fills"]:
             plans.append(history_plan(world, f))
@@ -163,6 +182,19 @@ def check(world, plans, results):
             v.sig = sig_of("crash", v.classes())
             return v
     sigs = set()
+    if world["scenario"] == "borrowed":
+        for k, res in enumerate(results):
+            leak_check(v, res, "borrowed %s plan %d" % (world["from"], k))
+            for r in res.get("ops", []):
+                if "rc" in r and isinstance(r["rc"], int) and not rc_in_enum(r["rc"]) and r["rc"] != -1:
+                    v.fail("rc-range", "borrowed %s: return code %r outside the documented enum" % (world["from"], r["rc"]))
+                if r.get("anomaly"):
+                    v.fail("out-pointer", "borrowed %s: %s" % (world["from"], r["anomaly"]))
+        v.nontrivial = True
+        v.sig = sig_of("borrowed", world["from"], len(results), sum(len(r.get("ops", [])) for r in results) // 8)
+        v.probe("borrowed_" + world["from"])
+        v.probe("executions", len(results))
+        return v
     if world["scenario"] == "history":
         labels = ["history"]
     else:
@@ -206,12 +238,20 @@ def check(world, plans, results):
         else:
             sigs.add(("history", world["ctor"]))
     v.nontrivial = len(cons) >= 2 or (world["scenario"] == "history" and len(world["ops"]) >= 15)
-    v.sig = sig_of(world["scenario"], sorted(sigs, key=str))
+    tsig = ""
+    if world["scenario"] == "layered" and world["read"]["ep"] != "readFile" and gen.name_of(world["read"]):
+        from . import c01 as _c01
+        tsig = _c01.layered_signature(world, gen.model_of(world))
+    v.sig = sig_of(world["scenario"], sorted(sigs, key=str), tsig, len(world.get("ops", [])) // 5)
     v.probe("executions", len(results))
     return v
 
 
 def shrink_lists(world):
+    if world["scenario"] == "borrowed":
+        import importlib
+        mod = importlib.import_module("lesim.props." + world["from"])
+        return [("inner",) + tuple(pth) for pth in mod.shrink_lists(world["inner"])]
     if world["scenario"] == "history":
         return [("ops",)] + ([("file",)] if world.get("file") else [])
     out = [("nodes",)]
